@@ -1,74 +1,92 @@
-"""Mutation sweep: single-point AST mutants of selected functions of the REPAIRED tree; for each mutant that still passes the pinned
-tests, run the prototype checks of the properties anchored there and record whether it is flagged."""
-import ast, copy, json, os, shutil, subprocess, sys, time
-BASE = "/root/scratch/repo_fix"; WORK = "/root/scratch/mutsweep/tree"; STAGE = "/root/scratch/stage"
-TARGETS = json.loads(sys.argv[1])      # [[relpath, [function names], [properties]], ...]
-LIMIT = int(sys.argv[2]) if len(sys.argv) > 2 else 40
-OUT = sys.argv[3] if len(sys.argv) > 3 else "/root/scratch/mutsweep/result.json"
+#!/venv/bin/python
+"""Mutation sweep (self-validation, not part of any registered command).
+
+Single-point AST mutants of one source file of /repo's HEAD; every mutant that still passes the pinned suite is run through the checks
+of the properties anchored in that file (in the given order, stopping at the first that flags it).
+
+  mutation_sweep.py <relative source file> <P1,P2,...> [limit] [out.json]
+
+Scratch copies live under /root/scratch/mutsweep/<file stem>/ and are removed afterwards."""
+import ast, copy, json, os, random, shutil, subprocess, sys, pathlib
+ROOT = pathlib.Path(__file__).resolve().parents[1]
+rel = sys.argv[1]; props = sys.argv[2].split(","); LIMIT = int(sys.argv[3]) if len(sys.argv) > 3 else 40
+stem = rel.replace("/", "_").replace(".py", "")
+OUT = sys.argv[4] if len(sys.argv) > 4 else str(ROOT / "selftest" / f"sweep_{stem}.json")
+WORK = f"/root/scratch/mutsweep/{stem}"
 CMP = {ast.Lt: ast.LtE, ast.LtE: ast.Lt, ast.Gt: ast.GtE, ast.GtE: ast.Gt, ast.Eq: ast.NotEq, ast.NotEq: ast.Eq}
 BIN = {ast.Add: ast.Sub, ast.Sub: ast.Add, ast.Mult: ast.FloorDiv, ast.FloorDiv: ast.Mult, ast.BitAnd: ast.BitOr, ast.BitOr: ast.BitAnd, ast.LShift: ast.RShift, ast.RShift: ast.LShift}
 
-def mutants(tree, fnames):
-    """yield (description, mutated tree)"""
+
+def sites_of(tree):
     sites = []
     for node in ast.walk(tree):
-        if isinstance(node, ast.FunctionDef) and node.name in fnames:
+        if isinstance(node, ast.FunctionDef):
             for sub in ast.walk(node):
                 if isinstance(sub, ast.Compare) and type(sub.ops[0]) in CMP: sites.append((sub, "cmp"))
                 elif isinstance(sub, ast.BinOp) and type(sub.op) in BIN: sites.append((sub, "bin"))
                 elif isinstance(sub, ast.AugAssign) and type(sub.op) in BIN: sites.append((sub, "aug"))
                 elif isinstance(sub, ast.Constant) and isinstance(sub.value, bool): sites.append((sub, "bool"))
-                elif isinstance(sub, ast.Constant) and isinstance(sub.value, int): sites.append((sub, "int+")); sites.append((sub, "int-"))
+                elif isinstance(sub, ast.Constant) and isinstance(sub.value, int) and abs(sub.value) < 100: sites.append((sub, "int+")); sites.append((sub, "int-"))
                 elif isinstance(sub, ast.Constant) and sub.value in ("left", "right"): sites.append((sub, "side"))
-                elif isinstance(sub, ast.UnaryOp) and isinstance(sub.op, (ast.USub, ast.Invert, ast.Not)): sites.append((sub, "unary"))
-    for node, kind in sites:
-        saved = copy.copy(node.__dict__)
-        try:
-            if kind == "cmp": node.ops = [CMP[type(node.ops[0])]()] + node.ops[1:]
-            elif kind in ("bin", "aug"): node.op = BIN[type(node.op)]()
-            elif kind == "bool": node.value = not node.value
-            elif kind == "int+": node.value = node.value + 1
-            elif kind == "int-": node.value = node.value - 1
-            elif kind == "side": node.value = "left" if node.value == "right" else "right"
-            elif kind == "unary":
-                node.__class__ = ast.Expr; continue_ = True
-                node.__class__ = ast.UnaryOp
-                # replace -x by x: emulate by turning the op into UAdd where legal
-                if isinstance(node.op, ast.USub): node.op = ast.UAdd()
-                else:
-                    node.__dict__.update(saved); continue
-            yield "%s@%d" % (kind, getattr(node, "lineno", 0)), tree
-        finally:
-            node.__dict__.clear(); node.__dict__.update(saved)
+                elif isinstance(sub, ast.UnaryOp) and isinstance(sub.op, ast.USub): sites.append((sub, "unary"))
+                elif isinstance(sub, ast.Expr) and isinstance(sub.value, ast.Call): sites.append((sub, "delcall"))          # drop a statement-level call (e.g. self.ravel())
+                elif isinstance(sub, ast.Call) and isinstance(sub.func, ast.Attribute) and sub.func.attr in ("minimum", "maximum"): sites.append((sub, "minmax"))
+    return sites
 
-def run(cmd, env=None, timeout=600):
+
+def apply(node, kind):
+    if kind == "cmp": node.ops = [CMP[type(node.ops[0])]()] + node.ops[1:]
+    elif kind in ("bin", "aug"): node.op = BIN[type(node.op)]()
+    elif kind == "bool": node.value = not node.value
+    elif kind == "int+": node.value = node.value + 1
+    elif kind == "int-": node.value = node.value - 1
+    elif kind == "side": node.value = "left" if node.value == "right" else "right"
+    elif kind == "unary": node.op = ast.UAdd()
+    elif kind == "delcall": node.value = ast.Constant(value=None)
+    elif kind == "minmax": node.func.attr = "maximum" if node.func.attr == "minimum" else "minimum"
+
+
+def run(cmd, env=None, timeout=900):
     try:
         p = subprocess.run(cmd, shell=True, capture_output=True, text=True, timeout=timeout, env=env)
         return p.returncode, p.stdout + p.stderr
     except subprocess.TimeoutExpired:
         return 124, "timeout"
 
-results = []
-for rel, fnames, props in TARGETS:
-    src = open(os.path.join(BASE, rel)).read(); tree = ast.parse(src)
-    seen = set(); n = 0
-    for desc, mt in mutants(tree, set(fnames)):
-        code = ast.unparse(mt)
-        if code in seen or code == ast.unparse(ast.parse(src)): continue
+
+shutil.rmtree(WORK, ignore_errors=True); os.makedirs(os.path.dirname(WORK), exist_ok=True)
+rc, out = run(f"git -C /repo worktree add -q --detach {WORK} HEAD")
+assert rc == 0, out
+try:
+    src = open(os.path.join(WORK, rel)).read(); tree = ast.parse(src)
+    base_code = ast.unparse(ast.parse(src))
+    sites = sites_of(tree)
+    random.Random(7).shuffle(sites)
+    results = []; seen = set(); n = 0
+    for node, kind in sites:
+        saved = copy.copy(node.__dict__)
+        try:
+            apply(node, kind); code = ast.unparse(tree)
+        finally:
+            node.__dict__.clear(); node.__dict__.update(saved)
+        if code in seen or code == base_code: continue
         seen.add(code); n += 1
         if n > LIMIT: break
-        shutil.rmtree(WORK, ignore_errors=True); shutil.copytree(BASE, WORK, ignore=shutil.ignore_patterns("__pycache__", ".git"))
         open(os.path.join(WORK, rel), "w").write(code)
-        rc, out = run(f"cd {WORK} && timeout 300 /venv/bin/python -m pytest -q -x -p no:cacheprovider --timeout=120 2>&1 | tail -1")
+        env = dict(os.environ, PYTHONPATH=WORK)
+        rc, out = run(f"cd {WORK} && timeout 300 /venv/bin/python -m pytest -q -x -p no:cacheprovider --timeout=120 2>&1 | tail -1", env=env)
         tests_pass = " failed" not in out and "error" not in out.lower() and "passed" in out
-        rec = {"file": rel, "mutant": desc, "tests_pass": tests_pass, "checks": {}}
+        rec = {"file": rel, "mutant": "%s@%d" % (kind, getattr(node, "lineno", 0)), "line": src.splitlines()[getattr(node, "lineno", 1) - 1].strip()[:120],
+               "tests_pass": tests_pass, "checks": {}}
         if tests_pass:
             for p in props:
-                env = dict(os.environ, VERIF_ROOT=STAGE, VERIF_REPO=WORK)
-                rc, out = run(f"{STAGE}/fw/check {p}", env=env)
+                env = dict(os.environ, VERIF_REPO=WORK)
+                rc, out = run(f"{ROOT}/check {p}", env=env)
                 rec["checks"][p] = "flagged" if rc == 1 and "VIOLATION" in out else ("clean" if rc == 0 else "error:" + out[-200:])
+                if rec["checks"][p] == "flagged": break
         results.append(rec); print(json.dumps(rec), flush=True)
         json.dump(results, open(OUT, "w"), indent=1)
-shutil.rmtree(WORK, ignore_errors=True)
-surv = [r for r in results if r["tests_pass"]]
-print("mutants", len(results), "pass pinned tests", len(surv), "flagged by a check", sum(any(v == "flagged" for v in r["checks"].values()) for r in surv))
+    surv = [r for r in results if r["tests_pass"]]
+    print("mutants", len(results), "pass pinned tests", len(surv), "flagged by a check", sum(any(v == "flagged" for v in r["checks"].values()) for r in surv))
+finally:
+    run(f"git -C /repo worktree remove --force {WORK}"); shutil.rmtree(WORK, ignore_errors=True); run("git -C /repo worktree prune")
